@@ -238,8 +238,14 @@ Overridden(p, nm) == LET ks == {k \in 2..Len(Mro(p)) : Mro(p)[k] \in Ids /\ nm \
                      IN IF ks = {} THEN {}
                         ELSE LET k == CHOOSE k \in ks : \A k2 \in ks : k <= k2
                              IN {c \in Contents(Mro(p)[k]) : Objs[c].name = nm}
+\* pages/__init__.py:517 the "overrides X" note is written whatever the visibility of X (taglink only drops the link);
+\* with the fix of overrides-note-names-hidden-member it is skipped for a hidden X
+OverridesNoted(p) == IF IsCls(p)
+                     THEN {c \in UNION {Overridden(p, Objs[x].name) : x \in Methods(p) \cup {p}} :
+                             Fx("overrides-note-names-hidden-member") => Vis(c)}
+                     ELSE {}
 Overrides(p, pf) == IF IsCls(p)                                                                       \* no visibility test
-                    THEN {L(pf, PL(c, p), "overrides") : c \in Linkable(UNION {Overridden(p, Objs[x].name) : x \in Methods(p) \cup {p}})} ELSE {}
+                    THEN {L(pf, PL(c, p), "overrides") : c \in Linkable(OverridesNoted(p))} ELSE {}
 RECURSIVE OvSubs(_, _, _)      \* util.py:46 overriding_subclasses
 OvSubs(c, nm, first) == IF ~first /\ nm \in Names(Contents(c)) THEN {c}
                         ELSE UNION {OvSubs(s, nm, FALSE) : s \in {s \in Objs[c].subclasses : s \in Ids /\ Vis(s)}}
@@ -282,6 +288,7 @@ ObjPageLinks(p) ==
 
 ObjPageEntries(p) ==
   LET pf == Written(p) IN
+  {E(pf, "overridesNote", Url(c), FALSE) : c \in OverridesNoted(p)} \cup
   {E(pf, "table", PL(c, p), MarkedPrivate(c)) : c \in VisContents(p) \cup (IF IsCls(p) THEN Inherited(p) ELSE {})}   \* table.py:30
   \cup {E(pf, "detail", [file |-> pf, frag |-> Objs[c].name], MarkedPrivate(c)) : c \in Methods(p)}                  \* attributechild.py:33
   \cup {E(pf, "sidebar", PL(c, p), IsPrivate(c)) : c \in SideListed(p)}                                                \* sidebar.py:329
@@ -349,7 +356,8 @@ Pred ==
    encfiles |-> {FileOf(i) : i \in {i \in ObjPages : Written(i) # FileOf(i)}}]
 PredView == [i \in Ids |-> [id |-> i, parent |-> Objs[i].parent, priv |-> Objs[i].priv, own |-> IsOwn(i),
                             file |-> FileOf(i), frag |-> FragOf(i), intree |-> InTree(i),
-                            root |-> Objs[i].parent = None, docsrc |-> Objs[i].docsrc, mro |-> Range(Objs[i].mro)]]
+                            root |-> Objs[i].parent = None, docsrc |-> Objs[i].docsrc, mro |-> Range(Objs[i].mro),
+                            subs |-> {x \in Objs[i].subclasses : x \in Ids}, main |-> IsMod(i) /\ Objs[i].name = "__main__"]]
 
 (***************************************************************************)
 (* 4. The properties, over an object view O (id -> [parent, priv, own,     *)
@@ -394,11 +402,19 @@ HiddenTraces(O, S, multi) ==
  \cup {[trace |-> "searchDoc", page |-> "", file |-> i, frag |-> "", prod |-> ""] : i \in hi \cap {d.id : d \in S.docs}}
  \cup {[trace |-> "searchindex", page |-> "", file |-> i, frag |-> "", prod |-> ""] : i \in hi \cap S.search}
  \cup {[trace |-> "fullsearchindex", page |-> "", file |-> i, frag |-> "", prod |-> ""] : i \in hi \cap S.fsearch}
+\* classIndex.html is a tree: the item of a PRIVATE class holds the items of its subclasses, so it must carry the marker
+\* unless that would hide a visible subclass (at any depth) that is not private itself nor by its containers
+RECURSIVE PrivCtxIn(_, _)
+PrivCtxIn(O, i) == O[i].priv # "PUBLIC" \/ (O[i].parent # None /\ O[i].parent \in DOMAIN O /\ PrivCtxIn(O, O[i].parent))
+RECURSIVE Excused(_, _, _)
+Excused(O, c, seen) == \E x \in O[c].subs \ seen : (~HiddenIn(O, x) /\ ~PrivCtxIn(O, x)) \/ Excused(O, x, seen \cup {x})
+ClassNodeUrls(O) == {<<O[i].file, O[i].frag>> : i \in {i \in DOMAIN O : ~HiddenIn(O, i) /\ O[i].priv = "PRIVATE" /\ ~Excused(O, i, {i})}}
 PrivUrls(O) == {<<O[i].file, O[i].frag>> : i \in {i \in DOMAIN O : ~HiddenIn(O, i) /\ O[i].priv = "PRIVATE"}}
 Unmarked(O, S) ==
-  LET pu == PrivUrls(O) IN
+  LET pu == PrivUrls(O)  cu == ClassNodeUrls(O) IN
       {[page |-> e.page, kind |-> e.kind, file |-> e.file, frag |-> e.frag] :
-          e \in {e \in S.entries : e.kind \in MarkedKinds /\ ~e.private /\ <<e.file, e.frag>> \in pu}}
+          e \in {e \in S.entries : ~e.private /\ (\/ (e.kind \in MarkedKinds /\ <<e.file, e.frag>> \in pu)
+                                                  \/ (e.kind = "classIndex" /\ <<e.file, e.frag>> \in cu))}}
  \cup {[page |-> "all-documents", kind |-> "searchDoc", file |-> d.file, frag |-> d.frag] :
           d \in {d \in S.docs : d.privacy # "PRIVATE" /\ d.id \in DOMAIN O /\ ~HiddenIn(O, d.id) /\ O[d.id].priv = "PRIVATE"}}
 HiddenNoTrace(O, S, multi) == HiddenTraces(O, S, multi) = {}
@@ -434,7 +450,17 @@ KF_HiddenRootListed(O, l) == l.prod \in {"moduleIndex", "indexRoots"} /\ \E r \i
 \* the docstring was rendered; sidebar.py rebuilds the ToC (fresh ids) for every ObjContent, also on other pages
 KF_TocBackrefStale(l) == l.prod = "tocBackref" /\ l.file = l.page /\ l.frag # ""
 
+\* get_override_info() writes "overrides <full name>" although the overridden member is hidden
+KF_OverridesNoteHidden(O, multi, l) == l.prod = "overridesNote" /\ Targets(O, multi, l.file, l.frag)
+\* Module.privacyClass answers PRIVATE for a module named __main__ before the rules are consulted: a rule that hides it
+\* (customize.rst: rules override the defaults) has no effect, the module and its members are rendered
+RECURSIVE InMain(_, _)
+InMain(O, i) == (O[i].main /\ O[i].priv = "HIDDEN") \/ (O[i].parent # None /\ O[i].parent \in DOMAIN O /\ InMain(O, O[i].parent))
+MainHidden(O) == {i \in DOMAIN O : InMain(O, i)}
+KF_MainIgnoresRules(O, f, g) == \E i \in MainHidden(O) : (O[i].file = f /\ (O[i].own \/ O[i].frag = g)) \/ (i = f /\ g = "")
+
 KfLink(O, S, multi, l) == IF KF_EncodedFilename(S, l.file) THEN "percent-encoded-page-filename"
+                          ELSE IF KF_OverridesNoteHidden(O, multi, l) THEN "overrides-note-names-hidden-member"
                           ELSE IF KF_TocBackrefStale(l) THEN "toc-backref-stale-id"
                           ELSE IF KF_SupersededListed(O, l) THEN "superseded-duplicate-listed"
                           ELSE IF KF_InheritedDocLink(O, l) THEN "inherited-docstring-samepage-link"
@@ -452,7 +478,8 @@ Verdict(O, S, multi) ==
    VisibleHasPage |-> {[obj |-> i, kf |-> KfObj(O, S, i)] : i \in NoPage(O, S)},
    VisibleMemberHasAnchor |-> {[obj |-> i, kf |-> KfObj(O, S, i)] : i \in NoAnchor(O, S)},
    HiddenNoTrace |-> {[trace |-> t.trace, page |-> t.page, file |-> t.file, frag |-> t.frag, prod |-> t.prod,
-                       kf |-> IF t.trace \in {"link", "entry"}
+                       kf |-> IF KF_MainIgnoresRules(O, t.file, t.frag) THEN "main-module-ignores-rules"
+                              ELSE IF t.trace \in {"link", "entry"}
                               THEN KfLink(O, S, multi, [page |-> t.page, file |-> t.file, frag |-> t.frag, prod |-> t.prod, member |-> ""])
                               ELSE "none"] : t \in HiddenTraces(O, S, multi)},
    PrivateMarked |-> Unmarked(O, S)]
@@ -467,9 +494,21 @@ Sig(v) == {[inv |-> "LinksResolve", prod |-> x.prod, kf |-> x.kf] : x \in v.Link
           \cup {[inv |-> "PrivateMarked", prod |-> x.kind, kf |-> "none"] : x \in v.PrivateMarked}
 
 \* ---- design level: the invariants on the predicted site of an enumerated model
+\* which (relation, privacy of source, privacy of target) combinations a model exhibits: the harness realises a sample
+\* of the models that covers every combination some model has (effective privacy: HIDDEN also by container)
+Eff(i) == IF ~Vis(i) THEN "HIDDEN" ELSE Objs[i].priv
+Fact(r, a, b) == [rel |-> r, a |-> Eff(a), b |-> Eff(b)]
+Cov == {Fact("member", Objs[i].parent, i) : i \in {i \in Ids : Objs[i].parent # None}}
+       \cup UNION {{Fact("subclass", c, x) : x \in {x \in Objs[c].subclasses : x \in Ids}} : c \in {c \in Ids : IsCls(c)}}
+       \cup UNION {{Fact("xref", i, t) : t \in Objs[i].xrefs} : i \in Ids}
+       \cup UNION {{Fact("annotation", i, t) : t \in Objs[i].annrefs} : i \in Ids}
+       \cup UNION {{Fact("inheritsdoc", i, Objs[i].docsrc)} : i \in {i \in Ids : Objs[i].docsrc # i}}
+       \cup UNION {UNION {{Fact("overrides", x, c) : c \in Overridden(p, Objs[x].name)} : x \in Contents(p)} : p \in {p \in Ids : IsCls(p)}}
+       \cup UNION {UNION {{[rel |-> "inherited2", a |-> Eff(Mro(p)[k]), b |-> Eff(c)] : c \in Contents(Mro(p)[k])} : k \in {k \in 3..Len(Mro(p)) : Mro(p)[k] \in Ids}} : p \in {p \in Ids : IsCls(p)}}
+       \cup {[rel |-> "root", a |-> Eff(r), b |-> IF Multi THEN "multi" ELSE "single"] : r \in Range(Roots)}
 EnumOut == LET P == Pred  V == PredView IN
            [feat |-> feat, depth |-> depth, nd |-> nd, nobjs |-> Cardinality(Ids), npages |-> Cardinality(ObjPages),
-            nlinks |-> Cardinality(P.links), sig |-> Sig(Verdict(V, P, Multi))]
+            nlinks |-> Cardinality(P.links), sig |-> Sig(Verdict(V, P, Multi)), cov |-> Cov]
 
 \* ---- observed sites
 ObsSite == [files   |-> Range(Case.site.files),
@@ -486,11 +525,13 @@ CaseInTree(i) == Case.objs[i].incontents /\ (Case.objs[i].parent = None
 \* promises is that of the LAST such rule, whatever System.privacyClass answered; otherwise (patterns, defaults: C13)
 \* the System's answer is taken.  The property is judged against this expected privacy.
 ExactRules(i) == {k \in DOMAIN Case.rules : Case.rules[k].m = i}
-Expected(i, sys) == IF ExactRules(i) = {} \/ Case.objs[i].name = "__main__" THEN sys
+Expected(i, sys) == IF ExactRules(i) = {} THEN sys
                     ELSE Case.rules[CHOOSE k \in ExactRules(i) : \A k2 \in ExactRules(i) : k2 <= k].p
 ObsView == [i \in DOMAIN Case.objs |-> LET o == Case.objs[i] IN
               [id |-> i, parent |-> o.parent, priv |-> Expected(i, o.priv), own |-> o.ownpage, file |-> o.file, frag |-> o.frag,
-               intree |-> CaseInTree(i), root |-> o.parent = None, docsrc |-> o.docsrc, mro |-> Range(o.mro)]]
+               intree |-> CaseInTree(i), root |-> o.parent = None, docsrc |-> o.docsrc, mro |-> Range(o.mro),
+               subs |-> {x \in Range(o.subclasses) : x \in DOMAIN Case.objs},
+               main |-> o.cls \in {"Module", "Package"} /\ o.name = "__main__"]]
 ObsMulti == Cardinality(Range(Case.roots)) > 1
 
 Modelled == Range(Case.modelled)       \* producers / entry kinds whose output the model predicts for this case
